@@ -9,6 +9,7 @@ import numpy as np
 
 from vlib import precip
 
+BINARY = ('alzr', 'cuti')      # systems solved with BinaryThermodynamics (tabulated interfacial compositions)
 SITES = ['bulk', 'dislocations', 'grain boundaries', 'grain edges', 'grain corners']
 SITE_KMAX = {'grain boundaries': 1.0, 'grain edges': np.sqrt(3) / 2, 'grain corners': np.sqrt(2.0 / 3.0)}
 
@@ -50,6 +51,18 @@ def gen_config(rng, system=None, tier='quick', allow_noniso=True, out_of_window=
                 x0 = [_loguniform(rng, 1e-6, 5e-5)]
             else:
                 T0 = rng.uniform(900, 1000)
+    elif system == 'cuti':
+        # binary with two precipitate phases of different interfacial energy (added after seeded change C12-d)
+        x0 = [float(rng.uniform(0.008, 0.03))]
+        T0 = rng.uniform(600, 720)
+        gam = {'CU4TI': float(rng.uniform(0.03, 0.055)), 'CU3TI2': float(rng.uniform(0.05, 0.09))}
+        if rng.random() < 0.25:
+            gam['CU3TI2'] = gam['CU4TI']
+        if out_of_window:
+            if rng.random() < 0.5:
+                x0 = [_loguniform(rng, 1e-5, 5e-4)]
+            else:
+                T0 = rng.uniform(1100, 1200)
     elif system == 'nialcr':
         x0 = [float(rng.uniform(0.095, 0.12)), float(rng.uniform(0.06, 0.10))]
         T0 = rng.uniform(1000, 1100)
@@ -78,7 +91,8 @@ def gen_config(rng, system=None, tier='quick', allow_noniso=True, out_of_window=
     cfg['gamma'] = gam
     phases = cfg['phases']
     # ---------------------------------------------------------------- run length
-    dur = {'alzr': _loguniform(rng, 3e3, 1e6), 'nialcr': _loguniform(rng, 1e2, 1e6), 'almgsi': _loguniform(rng, 1e3, 1e5)}[system]
+    dur = {'alzr': _loguniform(rng, 3e3, 1e6), 'cuti': _loguniform(rng, 1e1, 1e5), 'nialcr': _loguniform(rng, 1e2, 1e6),
+           'almgsi': _loguniform(rng, 1e3, 1e5)}[system]
     if out_of_window or rng.random() < 0.1:
         dur = _loguniform(rng, 1e1, 1e4)
     cfg['schedule'] = gen_schedule(rng, system, T0, allow_noniso, dur)
@@ -100,7 +114,7 @@ def gen_config(rng, system=None, tier='quick', allow_noniso=True, out_of_window=
     cfg['grainSize'] = _loguniform(rng, 0.5, 100.0)
     boundary_grain = _loguniform(rng, 0.3, 8.0)
     cfg['dislocationDensity'] = _loguniform(rng, 1e12, 1e15)
-    if system == 'nialcr' and rng.random() < 0.5:
+    if system in ('nialcr', 'cuti') and rng.random() < 0.5:
         cfg['bulkN0'] = _loguniform(rng, 1e28, 1e30)
     elif 'bulkN0' in cfg and rng.random() < 0.5:
         del cfg['bulkN0']
@@ -149,7 +163,7 @@ def gen_config(rng, system=None, tier='quick', allow_noniso=True, out_of_window=
         minB = int(rng.integers(20, 120))
         maxB = int(rng.integers(30, 200))
         bins = int(rng.integers(10, 160))
-    if noniso and system == 'alzr':
+    if noniso and system in BINARY:
         bins = min(bins, 32)
         minB = min(minB, 24)
         maxB = max(min(maxB, 48), minB + 5, bins)
@@ -173,12 +187,12 @@ def gen_config(rng, system=None, tier='quick', allow_noniso=True, out_of_window=
     if rng.random() < 0.2:
         cons['maxVolumeChange'] = float(rng.choice([1e-3, 1e-2]))
     cfg['constraints'] = cons
-    if system != 'alzr':
+    if system not in BINARY:
         if rng.random() < 0.3:
             cfg['infDiff'] = False
     if rng.random() < 0.3:
         cfg['effectiveDiffusion'] = bool(rng.random() < 0.5)
-    if system == 'alzr' and allow_beta2 and rng.random() < 0.25:
+    if system in BINARY and allow_beta2 and rng.random() < 0.25:
         cfg['betaBinary'] = 2
     # ---------------------------------------------------------------- solver step fractions (dt constraints of solve())
     if allow_dtfrac and rng.random() < 0.3:
@@ -189,7 +203,7 @@ def gen_config(rng, system=None, tier='quick', allow_noniso=True, out_of_window=
     # ---------------------------------------------------------------- step cap
     if max_steps is None:
         max_steps = 1600 if tier == 'quick' else 6000
-        if noniso and system == 'alzr':
+        if noniso and system in BINARY:
             # every step (every RK4 stage) of a fast ramp rebuilds the interfacial-composition table (0.3-1 s)
             max_steps = (60 if cfg['iterator'] == 'euler' else 50) if tier == 'quick' else 400
         if system == 'almgsi':
@@ -202,8 +216,8 @@ def gen_config(rng, system=None, tier='quick', allow_noniso=True, out_of_window=
 
 def cfg_weight(cfg):
     """Rough relative cost, for load balancing."""
-    per = {'alzr': 4.5, 'nialcr': 9.0, 'almgsi': 14.0}[cfg['system']] * (3.0 if cfg['iterator'] == 'rk4' else 1.0)
-    if cfg['schedule']['kind'] != 'iso' and cfg['system'] == 'alzr':
+    per = {'alzr': 4.5, 'cuti': 9.0, 'nialcr': 9.0, 'almgsi': 14.0}[cfg['system']] * (3.0 if cfg['iterator'] == 'rk4' else 1.0)
+    if cfg['schedule']['kind'] != 'iso' and cfg['system'] in BINARY:
         per = 700.0
     return per * cfg['max_steps'] * max(1, len(cfg['phases']) / 2)
 
